@@ -57,6 +57,10 @@ def structured_long():
     out.append(["0.000000001", "1000000000", "0.000000001"])
     out.append(["7"])
     out.append(["0.7"])
+    out.append(["0.1234567", "0.8765433"])
+    out.append(["33.33333", "33.33333", "33.33334"])
+    out.append(["1234567", "7654321", "1111111"])
+    out.append(["999999.5", "1000000.4", "0.1"])
     return out
 
 
@@ -69,8 +73,9 @@ def family(tier, seed):
         longs = structured_long()
     else:
         rng.shuffle(smalls)
-        sel = smalls[:40]
-        longs = [v for v in structured_long() if len(v) <= 16]
+        sel = smalls[:30]
+        slow = (["1234567", "7654321", "1111111"], ["999999.5", "1000000.4", "0.1"])
+        longs = [v for v in structured_long() if len(v) <= 16 and v not in slow]
         more = [v for v in structured_long() if len(v) > 16]
         rng.shuffle(more)
         longs += more[:3]
